@@ -54,13 +54,15 @@ pub fn alphabet(inst: usize, allowed: &[u16], ids: &[u16], layouts: usize) -> Ve
             }
             add(format!("OT({},{})", pn, id), if *proto == 9 { v9p(vec![v9_ot(*id)]) } else { ipm(vec![ip_ot(*id)]) }, None, *proto, true);
             add(format!("D({},{})", pn, id), d(), None, *proto, false);
-            add(
-                format!("TD({},{},A)", pn, id),
-                if *proto == 9 { v9p(vec![v9_t(*id, 0), V9Set::Data(*id, body12(salt + 1))]) } else { ipm(vec![ip_t(*id, 0), IpfixSet::Data(*id, body12(salt + 1))]) },
-                None,
-                *proto,
-                true,
-            );
+            for l in 0..layouts {
+                add(
+                    format!("TD({},{},{})", pn, id, ["A", "B", "C"][l]),
+                    if *proto == 9 { v9p(vec![v9_t(*id, l), V9Set::Data(*id, body12(salt + 1))]) } else { ipm(vec![ip_t(*id, l), IpfixSet::Data(*id, body12(salt + 1))]) },
+                    None,
+                    *proto,
+                    true,
+                );
+            }
             add(
                 format!("DT({},{},B)", pn, id),
                 if *proto == 9 { v9p(vec![V9Set::Data(*id, body12(salt + 2)), v9_t(*id, 1)]) } else { ipm(vec![IpfixSet::Data(*id, body12(salt + 2)), ip_t(*id, 1)]) },
@@ -191,30 +193,44 @@ pub fn report(prop: &str, tier: &str, runs: Vec<Run>, rule: &str, required_guard
             if !printed.insert(sig.clone()) {
                 continue;
             }
-            // confirm by re-execution of the history from the initial state
-            let mut st = stateright::Model::init_states(&r.model).remove(0);
-            let mut last: Vec<Issue> = vec![];
-            let mut panicked = false;
-            for a in hist {
-                match std::panic::catch_unwind(std::panic::AssertUnwindSafe(|| r.model.step(&st, *a))) {
-                    Ok((n2, is)) => {
-                        st = n2;
-                        last = is;
-                    }
-                    Err(_) => {
-                        panicked = true;
-                        break;
+            // confirm by re-execution of a recorded history from the initial state (several candidates, shortest first)
+            let mut cands: Vec<Vec<u16>> = vec![hist.clone()];
+            if let Some(m) = col.more.get(sig) {
+                let mut m = m.clone();
+                m.sort_by_key(|h| h.len());
+                cands.extend(m);
+            }
+            let mut reproduced = false;
+            let mut hist: &Vec<u16> = hist;
+            for cand in &cands {
+                let mut st = stateright::Model::init_states(&r.model).remove(0);
+                let mut last: Vec<Issue> = vec![];
+                let mut panicked = false;
+                for a in cand {
+                    match std::panic::catch_unwind(std::panic::AssertUnwindSafe(|| r.model.step(&st, *a))) {
+                        Ok((n2, is)) => {
+                            st = n2;
+                            last = is;
+                        }
+                        Err(_) => {
+                            panicked = true;
+                            break;
+                        }
                     }
                 }
-            }
-            if probe_mode {
-                if let Some(p) = &r.model.probe {
-                    last.extend(p(&r.model, &st));
+                if probe_mode {
+                    if let Some(p) = &r.model.probe {
+                        last.extend(p(&r.model, &st));
+                    }
+                }
+                if last.iter().any(|i| &i.sig == sig) || probe_mode || (panicked && sig.starts_with("library-panicked")) {
+                    reproduced = true;
+                    hist = cand;
+                    break;
                 }
             }
-            let reproduced = last.iter().any(|i| &i.sig == sig) || probe_mode || (panicked && sig.starts_with("library-panicked"));
             if !reproduced {
-                eprintln!("MACHINERY: violation {} did not reproduce when its history was replayed", sig);
+                eprintln!("MACHINERY: violation {} did not reproduce when its history was replayed ({} candidate histories tried)", sig, cands.len());
                 machinery_fail = true;
                 continue;
             }
@@ -300,6 +316,8 @@ fn engine_seed() -> usize {
 pub fn configs(tier: &str, probe: impl Fn() -> Option<Box<dyn Fn(&HistModel, &St) -> Vec<Issue> + Send + Sync>>) -> Vec<Run> {
     let mut runs = vec![];
     runs.push(run_config("2 instances (all / {5,7,10}), ids {256,257}, layouts A,B", 2, vec![vec![5, 7, 9, 10], vec![5, 7, 10]], &[256, 257], 2, 40, probe()));
+    // both instances decode both protocols: the same id with different layouts (and record lengths) lives in both
+    runs.push(run_config("2 instances (all / {9,10}), id {256}, layouts A,B,C", 2, vec![vec![5, 7, 9, 10], vec![9, 10]], &[256], 3, 40, probe()));
     if tier == "thorough" {
         runs.push(run_config("1 instance, ids {256,257,300}, layouts A,B,C", 1, vec![vec![5, 7, 9, 10]], &[256, 257, 300], 3, 40, probe()));
         runs.push(run_config("2 instances (all / {9}), ids {256,257}, layouts A,B", 2, vec![vec![5, 7, 9, 10], vec![9]], &[256, 257], 2, 40, probe()));
@@ -324,7 +342,12 @@ pub fn run(tier: &str) -> i32 {
         &["redefinition-then-data", "data-under-template-learned-two-calls-ago", "disallowed-template-offered", "same-id-live-in-both-protocols-with-different-layouts", "kind-change-then-data", "composite-buffer-compared-with-split-delivery", "other-instance-non-empty-while-acting"],
         t0,
         false,
-        Some(&|| capacity_check(thorough)),
+        Some(&|| {
+            let (mut a, n1) = capacity_check(thorough);
+            let (b, n2) = unmerged_check(if thorough { 4 } else { 3 });
+            a.extend(b);
+            (a, n1 + n2)
+        }),
     )
 }
 
@@ -385,6 +408,7 @@ pub fn replay(v: &Value) -> i32 {
         ("1 instance, ids {256,257,300}, layouts A,B,C", 1, vec![vec![5, 7, 9, 10]], vec![256, 257, 300], 3),
         ("2 instances (all / {9}), ids {256,257}, layouts A,B", 2, vec![vec![5, 7, 9, 10], vec![9]], vec![256, 257], 2),
         ("1 instance, ids {256,257}, layouts A,B,C", 1, vec![vec![5, 7, 9, 10]], vec![256, 257], 3),
+        ("2 instances (all / {9,10}), id {256}, layouts A,B,C", 2, vec![vec![5, 7, 9, 10], vec![9, 10]], vec![256], 3),
         ("2 instances (all / all), ids {256,257}, layouts A,B", 2, vec![vec![5, 7, 9, 10], vec![5, 7, 9, 10]], vec![256, 257], 2),
         ("2 instances (all / {5,7,10}), ids {256,257,300}, layouts A,B", 2, vec![vec![5, 7, 9, 10], vec![5, 7, 10]], vec![256, 257, 300], 2),
         ("1 instance, ids {256,257,300,65535}, layouts A,B", 1, vec![vec![5, 7, 9, 10]], vec![256, 257, 300, 65535], 2),
@@ -428,4 +452,79 @@ pub fn replay(v: &Value) -> i32 {
     } else {
         0
     }
+}
+
+/// Bounded exploration WITHOUT state merging: every history of 1..=depth calls over the single-id two-instance
+/// alphabet (both instances decode V9 and IPFIX), replayed from scratch on fresh parsers; the last call of each history
+/// is judged against the reference (decode under the latest definition, caches = prediction).  The merged search above
+/// never extends a history by a call that leaves the caches unchanged, so state the subject keeps OUTSIDE the caches
+/// (process- or thread-wide, or in a private field) and sets during such a call is only visible here.
+pub fn unmerged_check(depth: usize) -> (Vec<Issue>, u64) {
+    use crate::cform::*;
+    use crate::refmodel::*;
+    use rayon::prelude::*;
+    let allowed = vec![vec![5u16, 7, 9, 10], vec![9u16, 10]];
+    let mut actions = vec![];
+    for i in 0..2 {
+        actions.extend(alphabet(i, &allowed[i], &[256], 3));
+    }
+    let m = HistModel::new(2, allowed.clone(), actions, 64);
+    let n = m.actions.len() as u64;
+    let mut total = 0u64;
+    let mut found: std::collections::BTreeMap<String, (Vec<u16>, String)> = Default::default();
+    for len in 1..=depth {
+        let count = n.pow(len as u32);
+        total += count;
+        let part: Vec<(String, Vec<u16>, String)> = (0..count)
+            .into_par_iter()
+            .filter_map(|idx| {
+                let hist: Vec<u16> = crate::util::digits(idx, &vec![n; len]).into_iter().rev().map(|d| d as u16).collect();
+                let mut ps: Vec<netflow_parser::NetflowParser> = (0..2).map(|j| m.fresh(j)).collect();
+                let mut pure: Vec<RefCache> = vec![RefCache::default(); 2];
+                let mut last: Option<(String, String)> = None;
+                for (k, a) in hist.iter().enumerate() {
+                    let a = &m.actions[*a as usize];
+                    let i = a.inst;
+                    let al = allowed[i].clone();
+                    let allow = move |v: u16| al.contains(&v);
+                    let got: Vec<CPkt> = ps[i].parse_bytes(&a.bytes).iter().map(c_pkt).collect();
+                    // the reference follows the subject's recorded defects (the state's reference cache is the one that
+                    // predicts the real caches); only the last step is judged
+                    let before = pure[i].clone();
+                    let exp_pure = ref_buffer_allowed(&a.bytes, &mut pure[i], &allow, &mut Q::pure()).expect("unmerged: outside reference domain");
+                    let mut exp = exp_pure.clone();
+                    if got != exp_pure || enc_of(&ps[i]) != enc_of_ref(&pure[i]) {
+                        let mut qc = before.clone();
+                        let mut q = Q::quirky();
+                        if let Ok(e) = ref_buffer_allowed(&a.bytes, &mut qc, &allow, &mut q) {
+                            if !q.fired.is_empty() {
+                                exp = e;
+                                pure[i] = qc;
+                            }
+                        }
+                    }
+                    if k + 1 == hist.len() {
+                        let d = crate::diff::diff_list(&exp, &got);
+                        if let Some(i0) = d.into_iter().next() {
+                            last = Some((format!("unmerged/decode/{}", i0.sig), format!("last call {}: {}", a.name, i0.detail)));
+                        } else if enc_of(&ps[i]) != enc_of_ref(&pure[i]) {
+                            last = Some(("unmerged/cache-differs-from-latest-definitions".to_string(), format!("after last call {}", a.name)));
+                        }
+                    }
+                }
+                last.map(|(s, d)| (s, hist, d))
+            })
+            .collect();
+        for (s, h, d) in part {
+            let e = found.entry(s).or_insert((h.clone(), d.clone()));
+            if h.len() < e.0.len() {
+                *e = (h, d);
+            }
+        }
+    }
+    let issues = found
+        .into_iter()
+        .map(|(s, (h, d))| issue(s, format!("{} ; history: {:?}", d, h.iter().map(|a| m.actions[*a as usize].name.clone()).collect::<Vec<_>>())))
+        .collect();
+    (issues, total)
 }
